@@ -57,6 +57,10 @@ def small_projects(rng):
     return [("two-files", p1), ("three-files-warning-mapdir", p2), ("generated", p3)]
 
 
+def _other_indent(prj):
+    return 2 if prj.toml.get("format", {}).get("indent_width", 4) != 2 else 3
+
+
 def scenarios(prj, rng):
     """(name, set-up steps before the build that is crashed, command that is crashed).  The
     set-up always ends in a consistent state produced by successful commands + manual steps."""
@@ -71,8 +75,11 @@ def scenarios(prj, rng):
         ("edit-then-build", [B, {"op": "edit", "path": first, "spec": spec2, "keep_mtime": False, "tag": "comment"}], "build"),
         ("deleted-output-then-build", [B, {"op": "out_delete", "which": "sv", "index": 0}], "build"),
         ("deleted-map-then-build", [B, {"op": "out_delete", "which": "map", "index": 1}], "build"),
-        ("format-change-then-build", [B, {"op": "toml", "section": "format", "key": "indent_width", "value": 2}], "build"),
+        ("format-change-then-build", [B, {"op": "toml", "section": "format", "key": "indent_width", "value": _other_indent(prj)}], "build"),
         ("edit-then-check", [B, {"op": "edit", "path": first, "spec": spec2, "keep_mtime": False, "tag": "comment"}], "check"),
+        ("edit-check-then-build", [B, {"op": "edit", "path": first, "spec": spec2, "keep_mtime": False, "tag": "comment"},
+                                   {"op": "cmd", "cmd": "check"}], "build"),
+        ("format-change-then-check", [B, {"op": "toml", "section": "format", "key": "indent_width", "value": _other_indent(prj)}], "check"),
     ]
     return res
 
@@ -225,6 +232,17 @@ def apply_corruption(name, data):
         return txt.replace(a, a[:-6] + "0.frag").encode()
     if name == "dependents-dropped":
         return re.sub(r"dependents = \[[^\]]*\]", "dependents = []", txt).encode()
+    if name == "info-drop-sv":
+        # well-formed info.toml without the stamps of the .sv outputs (maps and filelist kept)
+        parts = re.split(r"(?m)^(?=\[generated_files\.)", txt)
+        return (parts[0] + "".join(e for e in parts[1:] if not re.match(r'\[generated_files\."[^"]*\.sv"\]', e))).encode()
+    if name in ("info-keep-first", "info-drop-first", "info-header-only"):
+        # cuts that leave a well-formed info.toml with some (or all) generated_files entries gone
+        parts = re.split(r"(?m)^(?=\[generated_files\.)", txt)
+        head, ents = parts[0], parts[1:]
+        if name == "info-header-only" or not ents:
+            return head.encode()
+        return (head + (ents[0] if name == "info-keep-first" else "".join(ents[1:]))).encode()
     if name == "stamps-future":
         return re.sub(r"secs_since_epoch = \d+", "secs_since_epoch = 4102444800", txt).encode()
     if name == "stamps-zero":
@@ -232,20 +250,37 @@ def apply_corruption(name, data):
     return data
 
 
-def corruption_case(veryl, prj, tgt, name, then_edit):
-    base, sb, p = prepare(veryl, prj, [{"op": "cmd", "cmd": "build"}], "c05c")
+def _stamps(root):
+    import tomllib
+    try:
+        m = tomllib.load(open(os.path.join(root, ".build", "info.toml"), "rb"))
+        return {os.path.relpath(k, root): (v.get("secs_since_epoch"), v.get("nanos_since_epoch"))
+                for k, v in m.get("generated_files", {}).items()}
+    except Exception:
+        return {}
+
+
+def corruption_case(veryl, prj, tgt, name, then_edit, setup=None, cmds=(("check",), ("build",)), info_out=None):
+    """set-up (default: one build), damage one file under .build, then run `cmds`, each compared
+    with a clean run"""
+    base, sb, p = prepare(veryl, prj, setup if setup is not None else [{"op": "cmd", "cmd": "build"}], "c05c")
     try:
         path = target_path(sb.root, tuple(tgt))
         if path is None or not os.path.exists(path):
             return []
+        before = _stamps(sb.root)
         new = apply_corruption(name, open(path, "rb").read())
         if new is None:
             os.remove(path)
         else:
             with open(path, "wb") as f:
                 f.write(new)
+        if info_out is not None:
+            after = _stamps(sb.root)
+            # outputs whose generated_files stamp survived the damage unchanged
+            info_out["intact"] = sorted(k for k, v in after.items() if before.get(k) == v)
         out = []
-        for cmd in (["check"], ["build"]):
+        for cmd in [list(c) for c in cmds]:
             r, c, diffs = sb.run_vs_clean(cmd)
             out.append((cmd[0], r.rc, diffs))
         if then_edit:
@@ -258,6 +293,43 @@ def corruption_case(veryl, prj, tgt, name, then_edit):
         return out
     finally:
         shutil.rmtree(base, ignore_errors=True)
+
+
+def prehistories(prj):
+    """States in which the cache manifest, the stamps and the outputs are NOT in step when the
+    damage happens (a `check` shares the fragment cache: it records new hashes/fragments but never
+    emits).  (name, set-up steps)"""
+    B = {"op": "cmd", "cmd": "build"}
+    K = {"op": "cmd", "cmd": "check"}
+    first = sorted(prj.files)[0]
+    orig = json.loads(json.dumps(prj.files[first]))
+    edited = json.loads(json.dumps(orig))
+    if edited["kind"] == "pkg":
+        edited["w"] = 16 if edited.get("w") != 16 else 4        # visible in the emitted text
+    else:
+        edited["add"] = (edited.get("add") or 0) + 1
+    E = {"op": "edit", "path": first, "spec": edited, "keep_mtime": False, "tag": "pre"}
+    Eb = {"op": "edit", "path": first, "spec": orig, "keep_mtime": False, "tag": "pre-back"}
+    return [
+        ("edit-check", [B, E, K]),
+        ("edit-check-editback", [B, E, K, Eb]),
+        ("edit-check-edit-keepmtime-back", [B, E, K, dict(Eb, keep_mtime=True)]),
+        ("delete-output", [B, {"op": "out_delete", "which": "sv", "index": 0}]),
+        ("touch-source", [B, {"op": "touch", "path": first}]),
+        ("toml-check", [B, {"op": "toml", "section": "format", "key": "indent_width", "value": _other_indent(prj)}, K]),
+        ("edit-build-check", [B, E, B, K]),
+    ], first
+
+
+def prehistory_damages(first):
+    """damage kinds of the pre-history stream.  Not included: forged stamps (`stamps-future`): a
+    well-formed info.toml with later stamps cannot be told from a genuine one, which is the
+    recorded C04 finding check-refreshes-cache, not a detectable damage."""
+    inf = ["delete", "empty", "garbage", "truncate@7", "truncate@120", "toml-syntax", "stamps-zero",
+           "info-keep-first", "info-drop-first", "info-drop-sv", "info-header-only"]
+    man = ["delete", "garbage", "hash-changed", "key-changed", "dependents-dropped", "toml-append-unknown"]
+    return ([(("info",), n) for n in inf] + [(("manifest",), n) for n in man]
+            + [(("frag", first), "delete"), (("frag", first), "garbage"), (("frag", first), "flip@40:3")])
 
 
 def list_corruptions(veryl, prj, rng):
@@ -328,6 +400,13 @@ def _run_with(res, veryl, tier, seed, replay, proved):
             print("replay: crashed rc", rc, "recovery", brief, "diffs", diffs)
             for d in diffs:
                 res.violation(rp.get("key", "crash-recovery"), d[1], rp)
+        elif rp.get("kind") == "prehistory":
+            outs = corruption_case(veryl, prj, rp["file"], rp["name"], False, setup=rp["setup"], cmds=(("build",),))
+            print("replay:", outs)
+            for cmd, rc, diffs in outs:
+                for d in diffs:
+                    res.violation(rp.get("key", "prehistory"), d[1], rp)
+            return res.finish()
         else:
             outs = corruption_case(veryl, prj, rp["file"], rp["name"], True)
             print("replay:", outs)
@@ -367,8 +446,8 @@ def _run_with(res, veryl, tier, seed, replay, proved):
     with ThreadPoolExecutor(max_workers=min(C.NCPU, 16)) as exe:
         counted = list(exe.map(lambda s: count_points(veryl, s[1], s[3], s[4]), scen_list))
     for (pname, prj, sname, setup, cmd), (pts, rc) in zip(scen_list, counted):
-        if not pts:
-            hook_ok = False
+        if not pts and sname == "cold-build":
+            hook_ok = False          # a cold build always writes; other scenarios may legitimately write nothing
         res.hist("crash_points_per_scenario", "%s/%s" % (pname, sname), len(pts))
         for lbl in pts:
             res.hist("crash_point_kinds", lbl[1])
@@ -397,6 +476,9 @@ def _run_with(res, veryl, tier, seed, replay, proved):
             not_aborted += 1
         for d in diffs:
             key = classify_crash(lbl[1], diffs) if d[0] == "tree" else ("crash-recovery-" + d[0])
+            if sname == "format-change-then-check" and d[0] == "tree":
+                # a check that got as far as replacing the manifest under the new key, info.toml intact
+                key = "check-refreshes-cache-info-intact"
             viol.append((key, "%s / %s: `veryl %s` killed at write point %d (%s %s), then `veryl build`: %s" % (
                 pname, sname, cmd, k, lbl[1], lbl[2], d[1]),
                 {"kind": "crash", "project": prj.to_json(), "setup": setup, "cmd": cmd, "k": k, "point": list(lbl),
@@ -439,7 +521,39 @@ def _run_with(res, veryl, tier, seed, replay, proved):
                 viol.append((key, "%s: %s of %s, then `veryl %s`: %s" % (pname, name, rel, cmd, d[1]),
                              {"kind": "damage", "project": prj.to_json(), "file": list(tgt), "name": name}))
     res.coverage["corruption_cases"] = len(cjobs)
-    res.coverage["evaluations"] = len(jobs) + len(cjobs)
+
+    # ---- 3. damage after pre-histories (manifest ahead of the outputs / stamps)
+    pjobs = []
+    for pname, prj in projects[:2] if tier == "quick" else projects:
+        pres, first = prehistories(prj)
+        for prename, setup in pres:
+            for tgt, name in prehistory_damages(first):
+                pjobs.append((pname, prj, prename, setup, tgt, name))
+
+    def do_pre(j):
+        pname, prj, prename, setup, tgt, name = j
+        io = {}
+        outs = corruption_case(veryl, prj, tgt, name, then_edit=False, setup=setup, cmds=(("build",),), info_out=io)
+        return j, (outs, io.get("intact", []))
+
+    t0 = time.time()
+    with ThreadPoolExecutor(max_workers=min(C.NCPU, 16)) as exe:
+        pre_results = list(exe.map(do_pre, pjobs))
+    res.coverage["prehistory_wall_s"] = round(time.time() - t0, 1)
+    for (pname, prj, prename, setup, tgt, name), (outs, intact) in pre_results:
+        res.hist("prehistory_kinds", "%s/%s:%s" % (prename, tgt[0], name.split("@")[0]))
+        for cmd, rc, diffs in outs:
+            stale_sv = [d[2] for d in diffs if d[0] == "tree" and d[2] and d[2].endswith(".sv")]
+            for d in diffs:
+                key = "prehistory-%s-%s-%s:%s" % (prename, tgt[0], name.split("@")[0], d[0])
+                if prename == "toml-check" and d[0] == "tree" and stale_sv and all(x in intact for x in stale_sv):
+                    # the stamp of every stale output survived the damage unchanged: the recorded C04
+                    # class (check records hash+key without emitting), not an effect of the damage
+                    key = "check-refreshes-cache-info-intact"
+                viol.append((key, "%s: after %s, %s of %s, then `veryl %s`: %s" % (pname, prename, name, "/".join(tgt), cmd, d[1]),
+                             {"kind": "prehistory", "project": prj.to_json(), "setup": setup, "file": list(tgt), "name": name}))
+    res.coverage["prehistory_cases"] = len(pjobs)
+    res.coverage["evaluations"] = len(jobs) + len(cjobs) + len(pjobs)
     res.coverage["distinct_nontrivial"] = len({(j[0], j[2], j[5]) for j in jobs}) + len({(j[0], "/".join(j[2]), j[3]) for j in cjobs})
     res.coverage["rule"] = ("crash case = (project, scenario, k): scenario sets up a consistent state (cold / edited / output deleted / map "
                             "deleted / [format] changed / check after edit), the command is killed at its k-th write primitive "
@@ -447,9 +561,13 @@ def _run_with(res, veryl, tier, seed, replay, proved):
                             "is compared with a clean build; damage case = (project, file under .build, damage): delete, empty, garbage, "
                             "truncation at header/length boundaries, single-bit flips at header/payload positions, toml edits (syntax, key, "
                             "schema, hash, swapped fragments, missing fragment, dropped dependents, stamps), then check, build, edit+build; "
+                            "damage-after-pre-history case = (project, pre-history that puts the manifest ahead of outputs/stamps: "
+                            "edit+check, edit+check+edit-back, deleted output, touched source, toml change+check, edit+build+check) x "
+                            "(info.toml / manifest / edited file's fragment damage incl. well-formed cuts of info.toml), then build; "
                             "every case is distinct and non-trivial by construction")
     res.sample({"crash_points_first_scenario": [list(x) for x in counted[0][0][:12]]})
-    res.obligation("oracle: recovery build == clean build on %d crash cases and %d damage cases" % (len(jobs), len(cjobs)),
+    res.obligation("oracle: recovery build == clean build on %d crash cases, %d damage cases and %d damage-after-pre-history cases"
+                   % (len(jobs), len(cjobs), len(pjobs)),
                    not [v for v in viol if v[0] not in res.known])
     reported = set()
     for key, what, rp in viol:
